@@ -177,6 +177,21 @@ def run(ctx):
                 '{a, ab, a.b, a-b, b, ba, res_1, res_10}; non-trivial = the step ran successfully; distinct by content')
     rep.assumptions = ['Python re enters the model as an oracle table', 'names are unique within a package']
     P.run_cases(ctx, LAYER_A, oracle, ctx.n(1000, 15000))
+
+    def meta_names(rng, proc, desc, rows, a):
+        """resource names that contain regular-expression metacharacters, and selectors spelled like such a name: as a
+        regular expression the text 'a+b' matches 'ab' and 'aab', not the resource called 'a+b'"""
+        pool = ['a+b', 'a(1)', 'x|y', 'a*', 'a[b]', 'ab?', 'a.b', '^a']
+        names = S.res_names(desc)
+        for i in rng.sample(range(len(names)), rng.randint(1, min(2, len(names)))):
+            new = rng.choice([n for n in pool if n not in S.res_names(desc)])
+            desc['resources'][i]['name'] = new
+            desc['resources'][i]['path'] = 'r%d.csv' % i
+        a = S.PROCS[proc].gen(rng, desc, rows)
+        if 'sel' in a and rng.random() < 0.6:
+            a['sel'] = rng.choice(S.res_names(desc) + ['a+b', 'a(1)', 'x|y', 'a*', 'ab?'])
+        return desc, rows, a
+    P.run_cases(ctx, LAYER_A, oracle, ctx.n(400, 5000), salt='meta-names', gen_hook=meta_names)
     rng = ctx.rng('real-only')
     with quiet():
         for _ in range(ctx.n(500, 6000)):
